@@ -368,8 +368,18 @@ def gen_world(rng, backend, k):
                 s["attrs"] = [a for a in s["attrs"] if a[0] != "cache_type"]
                 if s["cached"] and s["kind"] != "page" and r.random() < 0.3:
                     s["attrs"].append(["cache_region", [["l", "r1"]]])
+    # takeover: the last template replaces an earlier one under the same URI (a second put_string): it is compiled in
+    # the middle of the history (op P) and the replaced one is not used afterwards
+    if backend != "dogpile" and len(tds) >= 2 and r.random() < 0.45:
+        j = len(tds) - 1
+        i = r.randrange(j)
+        tds[j]["uri"] = tds[i]["uri"]
+        tds[j]["cache_args"] = [list(kv) for kv in tds[i]["cache_args"]]
+        tds[j]["enabled"] = tds[i]["enabled"]
+        tds[j]["late"] = True
+        tds[j]["replaces"] = i
     case = {"backend": backend, "pass_context": backend == "rec" and r.random() < 0.5, "region_key": region_key,
-            "templates": tds, "history": []}
+            "starttime": backend != "dogpile", "templates": tds, "history": []}
     case["history"] = gen_history(r, case, allow_fa)
     return case
 
@@ -398,9 +408,17 @@ def gen_history(r, case, allow_early_inval):
     types = {"rec": ["ta", "tb"], "beaker_memory": ["memory"], "beaker_file": ["memory", "file"], "dogpile": []}[case["backend"]]
     n = r.randint(4, 30)
     ops = []
+    late = [j for j, td in enumerate(tds) if td.get("late")]
+    active = [j for j in range(nt) if j not in late]
+    takeover_at = {j: r.randint(1, max(1, n - 2)) for j in late}
     while len(ops) < n:
-        t = r.randrange(nt)
-        if ops and ops[-1][0] != "R" and r.random() < 0.6:
+        for j, at in list(takeover_at.items()):
+            if len(ops) >= at:
+                ops.append(["P", j])
+                active = [a for a in active if a != tds[j]["replaces"]] + [j]
+                del takeover_at[j]
+        t = r.choice(active)
+        if ops and ops[-1][0] != "R" and ops[-1][1] in active and r.random() < 0.6:
             # look at the effect of what was just done
             ops.append(["R", ops[-1][1], {"x": r.choice(VALS), "y": r.choice(VALS)}])
             continue
@@ -568,7 +586,7 @@ class Oracle:
                 self.created_keys.add(K)
         # delivered exactly as the uncached section would deliver it
         if is_block:
-            return "" if sec["buffered"] else v
+            return v        # a block shows its content where it stands, buffered or not
         if sec["buffered"]:
             return "<" + v + ">" if site else v
         return v + ("<>" if site else "")
@@ -677,19 +695,28 @@ def _make_recording_impl():
         def get_or_create(self, key, creation_function, **kw):
             _RecState.calls.append(("goc", self.cache.id, key, None, _canon_kw(kw, _cur_ctx[0])))
             k = self._k(key, kw)
-            if k not in _RecState.store:
+            hit = self._fresh(k)
+            if hit is None:
                 v = creation_function()
-                _RecState.store[k] = v
+                _RecState.store[k] = (v, time.time())
                 return v
-            return _RecState.store[k]
+            return hit[0]
+
+        def _fresh(self, k):
+            """the entry under k unless it was stored before the template of this Cache was compiled (Cache.starttime)"""
+            e = _RecState.store.get(k)
+            if e is not None and e[1] < self.cache.starttime:
+                return None
+            return e
 
         def set(self, key, value, **kw):
             _RecState.calls.append(("set", self.cache.id, key, value, _canon_kw(kw, None)))
-            _RecState.store[self._k(key, kw)] = value
+            _RecState.store[self._k(key, kw)] = (value, time.time())
 
         def get(self, key, **kw):
             _RecState.calls.append(("get", self.cache.id, key, None, _canon_kw(kw, None)))
-            return _RecState.store.get(self._k(key, kw))
+            e = self._fresh(self._k(key, kw))
+            return None if e is None else e[0]
 
         def invalidate(self, key, **kw):
             _RecState.calls.append(("inv", self.cache.id, key, None, _canon_kw(kw, None)))
@@ -782,33 +809,58 @@ class Impl:
         self.lookup = TemplateLookup()
         self.templates = []
         self.tmpdir = tmpdir
-        for td in case["templates"]:
-            args = {k: (tmpdir if v == "<tmp>" else v) for k, v in td["cache_args"]}
-            if be == "rec":
-                impl = "verif_recording"
-            elif be.startswith("beaker"):
-                impl = "beaker"
+        self.group_lookup = {}
+        for idx, td in enumerate(case["templates"]):
+            self.templates.append(None if td.get("late") else self.compile(idx))
+
+    def compile(self, idx):
+        """construct template idx now.  A template that is replaced / replaces another one is bound to its URI with
+        lookup.put_string (the lookup carries the cache arguments), the others are constructed directly."""
+        from mako.template import Template
+        from mako.lookup import TemplateLookup
+        case = self.case
+        be = case["backend"]
+        td = case["templates"][idx]
+        args = {k: (self.tmpdir if v == "<tmp>" else v) for k, v in td["cache_args"]}
+        if be == "rec":
+            impl = "verif_recording"
+        elif be.startswith("beaker"):
+            impl = "beaker"
+        else:
+            impl = "dogpile.cache"
+            from dogpile.cache import make_region
+            args["regions"] = {"r0": make_region().configure("dogpile.cache.memory"),
+                               "r1": make_region().configure("dogpile.cache.memory")}
+        in_group = td.get("late") or any(o.get("replaces") == idx for o in case["templates"])
+        try:
+            if in_group:
+                lk = self.group_lookup.get(td["uri"])
+                if lk is None:
+                    lk = self.group_lookup[td["uri"]] = TemplateLookup(cache_impl=impl, cache_args=args,
+                                                                       cache_enabled=td["enabled"])
+                lk.put_string(td["uri"], template_source(td))
+                t = lk.get_template(td["uri"])
             else:
-                impl = "dogpile.cache"
-                from dogpile.cache import make_region
-                args["regions"] = {"r0": make_region().configure("dogpile.cache.memory"),
-                                   "r1": make_region().configure("dogpile.cache.memory")}
-            try:
                 t = Template(template_source(td), uri=td["uri"], lookup=self.lookup, cache_impl=impl, cache_args=args,
                              cache_enabled=td["enabled"])
-            except Exception as e:          # a generated template must compile: reported per step, like a failing render
-                self.templates.append(("raised", type(e).__name__))
-                continue
-            self.lookup.put_template(td["uri"], t)
-            if be != "rec":
-                t.cache.impl = _Proxy(t.cache.impl)
-            self.templates.append(t)
+                self.lookup.put_template(td["uri"], t)
+        except Exception as e:          # a generated template must compile: reported per step, like a failing render
+            return ("raised", type(e).__name__)
+        if be != "rec":
+            t.cache.impl = _Proxy(t.cache.impl)
+        return t
 
     def step(self, op):
-        k, t = op[0], self.templates[op[1]]
         _RecState.calls = []
+        if op[0] == "P":
+            self.templates[op[1]] = self.compile(op[1])
+            t = self.templates[op[1]]
+            return {"resp": t if isinstance(t, tuple) else None, "ticks": [], "calls": []}
+        k, t = op[0], self.templates[op[1]]
         ticks = []
         resp = None
+        if t is None:
+            return {"resp": ("raised", "NotCompiledYet"), "ticks": [], "calls": []}
         if isinstance(t, tuple):
             return {"resp": t, "ticks": [], "calls": []}
         try:
@@ -911,7 +963,8 @@ def _run_impl(case):
             _reset_beaker()
         im = Impl(case, tmp)
         res = im.run()
-        ids = [module_id(td["uri"]) if isinstance(t, tuple) else t.cache.id for t, td in zip(im.templates, case["templates"])]
+        ids = [module_id(td["uri"]) if (t is None or isinstance(t, tuple)) else t.cache.id
+               for t, td in zip(im.templates, case["templates"])]
         return res, ids
     finally:
         _cur_tmp[0] = None
@@ -985,7 +1038,8 @@ def w_items(nodes, defs, budget):
 
 
 def w_case(case):
-    toks = ["cache", "run", "1" if case["pass_context"] else "0", enc(case["region_key"]), str(len(case["templates"]))]
+    toks = ["cache", "run", "1" if case["pass_context"] else "0", "1" if case.get("starttime", True) else "0",
+            enc(case["region_key"]), str(len(case["templates"]))]
     for td in case["templates"]:
         template_source(td)
         defs = {s["name"]: s for s in all_sections(td) if s["kind"] in ("topdef", "nested")}
@@ -1009,6 +1063,8 @@ def w_case(case):
             toks += ["G", str(op[1]), enc(op[2])] + w_kw(op[3])
         elif k == "N":
             toks += ["N", str(op[1]), "1" if op[2] else "0"]
+        elif k == "P":
+            toks += ["P", str(op[1])]
     return " ".join(toks)
 
 
@@ -1135,6 +1191,17 @@ def valid_case(case):
         lines = [s["line"] for s in all_sections(td) if s["kind"] == "ablock"]
         if len(set(lines)) != len(lines):
             return False
+    # a template that takes over a URI is compiled exactly once, before it is used; the replaced one is not used afterwards
+    compiled = set(i for i, td in enumerate(case["templates"]) if not td.get("late"))
+    dead = set()
+    for op in case["history"]:
+        if op[0] == "P":
+            if op[1] in compiled or not case["templates"][op[1]].get("late"):
+                return False
+            compiled.add(op[1])
+            dead.add(case["templates"][op[1]]["replaces"])
+        elif op[1] not in compiled or op[1] in dead:
+            return False
     return True
 
 
@@ -1153,7 +1220,8 @@ def shrink_case(case, fails0):
             return False
     case["history"] = ddmin(case["history"], f_hist, 300)
     # drop whole templates that no remaining op refers to (only from the end, indices stay valid)
-    while len(case["templates"]) > 1 and all(op[1] != len(case["templates"]) - 1 for op in case["history"]):
+    while len(case["templates"]) > 1 and all(op[1] != len(case["templates"]) - 1 for op in case["history"]) \
+            and all(td.get("replaces") != len(case["templates"]) - 1 for td in case["templates"]):
         c = _without_keys(case, templates=case["templates"][:-1])
         try:
             if not fails(c):
@@ -1265,10 +1333,20 @@ def shrink_case(case, fails0):
     return case
 
 
+def _root(case, i):
+    """index of the template whose URI template i (transitively) took over"""
+    seen = set()
+    while case["templates"][i].get("late") and i not in seen:
+        seen.add(i)
+        i = case["templates"][i]["replaces"]
+    return i
+
+
 def distinct_ids_variant(case):
     c = copy.deepcopy(case)
     for i, td in enumerate(c["templates"]):
-        td["uri"] = "/distinct%d_%s" % (i, re.sub(r"\W", "", td["uri"]))
+        r = _root(case, i)
+        td["uri"] = "/distinct%d_%s" % (r, re.sub(r"\W", "", case["templates"][r]["uri"]))
     return c
 
 
@@ -1282,7 +1360,7 @@ KNOWN_VARIANTS = []      # (site, variant function) - filled below
 
 
 def colliding_only_by_nonword(case):
-    uris = [td["uri"] for td in case["templates"]]
+    uris = [td["uri"] for i, td in enumerate(case["templates"]) if _root(case, i) == i]
     ids = [module_id(u) for u in uris]
     return len(set(uris)) == len(uris) and len(set(ids)) < len(ids)
 
@@ -1393,6 +1471,12 @@ def histogram(ctx, case, ref):
     ctx.branch("re-created-after-removal", ref.recreated)
     if ref.early_invalidation:
         ctx.branch("history:early-invalidation")
+    for td in case["templates"]:
+        if td.get("late"):
+            secs = [s_ for s_ in all_sections(td) if s_["cached"]]
+            with_to = any(a[0] == "cache_timeout" for s_ in secs for a in s_["attrs"]) or \
+                any(a[0] == "cache_timeout" for a in td["page"]["attrs"]) or any(kv[0] == "timeout" for kv in td["cache_args"])
+            ctx.branch("world:takeover:%s:%s" % (case["backend"], "with-timeout" if with_to else "no-timeout"))
 
 
 def run_stream(ctx, backend, n, seen_sites, k0):
@@ -1464,6 +1548,7 @@ def f5_case(u1, u2, backend="rec"):
             args = [["region", "r0"]]
         return {"uri": uri, "cache_args": args, "enabled": True, "has_page": True, "page": page}
     return {"backend": backend, "pass_context": False, "region_key": "region" if backend == "dogpile" else "type",
+            "starttime": backend != "dogpile",
             "templates": [td(u1, "first "), td(u2, "second ")],
             "history": [["R", 0, {"x": "1", "y": "1"}], ["R", 1, {"x": "2", "y": "2"}], ["R", 0, {"x": "3", "y": "3"}]]}
 
